@@ -10,7 +10,7 @@ for d in sorted(glob.glob('/verif/seeded/*/')):
     det=j.get('detected', 'detected_by' in j and 'NOT' not in j['detected_by'])
     hist=(j.get('history','') or '')
     if isinstance(hist,list): hist=' ; '.join(hist)
-    first='missed' if 'missed' in hist.lower() else 'caught'
+    first='missed' if ('missed' in hist.lower() or not det) else 'caught'
     rows.append((name,j['property'],first,'caught' if det else 'MISSED',j.get('detected_by','')[:200].replace('|','/'),hist[:300].replace('|','/')))
 out=["# Seeded property-breaking changes","",
 "Each directory holds one change to the repository written by an independent sub-agent that was given only the text of a property and a scratch worktree (nothing from /verif): `patch.diff`, a demonstration that fails with the change and passes without it, `notes.md`, and `meta.json` (what it breaks, what it needs to manifest, what was run). None of them is ever committed to /repo. To re-run: `git -C /repo worktree add --detach /tmp/wt HEAD && git -C /tmp/wt apply <dir>/patch.diff && VERIF_REPO=/tmp/wt VERIF_EVIDENCE_DIR=/tmp/ev VERIF_REPLAY_DIR=/tmp/rp ./check <ID> quick` (tools/eval_seed.sh automates it).","",
